@@ -73,15 +73,15 @@ def seeds():
     return s
 
 
-def reloc_file(counts=(1, 1, 6), pos=(0, 3), strings=b'ab\0cd\0', rdata=False):
+def reloc_file(counts=(1, 1, 6), pos=(0, 3), strings=b'ab\0cd\0', rdata=False, addr=0x100, rtype=0x10, hdr=None):
     """a code file with a relocation-info record ($85: three 32-bit counts, reloc entries, export entries, name strings) in front of
     / attached to a data record; counts and string positions are given separately so that they can disagree with the contents"""
     import struct
     body = struct.pack('<III', *[c & 0xffffffff for c in counts])
-    body += struct.pack('<QII', 0x100, pos[0] & 0xffffffff, 0x10)          # one relocation entry: address, name position, type
+    body += struct.pack('<QII', addr & 0xffffffffffffffff, pos[0] & 0xffffffff, rtype & 0xffffffff)          # one relocation entry: address, name position, type
     body += struct.pack('<IIQ', pos[1] & 0xffffffff, 0, 0x1234)            # one export entry: name position, flags, value
     body += strings
-    data = bytes([0x82 if rdata else 0x81, 0x41, 1, 1]) + struct.pack('<IH', 0x100, 4) + b'\x01\x02\x03\x04'
+    data = bytes([hdr or (0x82 if rdata else 0x81), 0x41, 1, 1]) + struct.pack('<IH', 0x100, 4) + b'\x01\x02\x03\x04'
     return b'\x89\x14' + (data + b'\x85' + body if rdata else b'\x85' + body + data) + b'\x00verif'
 
 
@@ -172,6 +172,11 @@ def subspaces(tier):
                         ps[i] = v
                         yield {'k': 'file', 'tool': tool, 'seed': 'reloc', 'mut': ['reloc', [1, 1, 6], ps, rdata]}
                 yield {'k': 'file', 'tool': tool, 'seed': 'reloc', 'mut': ['reloc-unterminated', [1, 1, 5], [0, 3], rdata]}
+            # the patch address and type of a relocation entry whose name resolves: every address around the 4-byte record x every width
+            for hdr in (0x82, 0x84):
+                for addr in (0, 0xff, 0x100, 0x101, 0x102, 0x103, 0x104, 0x1ff, 0x10000, 0xffffffff, 1 << 32, 1 << 63, (1 << 64) - 1):
+                    for rtype in (0x8008, 0x8010, 0x108010, 0x8020, 0x108020, 0x8040, 0x108040, 0x208010, 0x8018, 0x10):
+                        yield {'k': 'file', 'tool': tool, 'seed': 'reloc', 'mut': ['reloc-addr', hdr, addr, rtype]}
     subs.append(('5:code-file-prefixes-and-substitutions', filefaults()))
     subs.append(('5:tool-option-arguments', toolopt_cases()))
     subs.append(('5:dasl-images', dasl_cases(q)))
@@ -512,6 +517,8 @@ def evaluate(case):
         mut = case['mut']
         if mut[0] == 'reloc':
             data = reloc_file(tuple(mut[1]), tuple(mut[2]), rdata=bool(mut[3]))
+        elif mut[0] == 'reloc-addr':
+            data = reloc_file(pos=(3, 3), rdata=True, hdr=mut[1], addr=mut[2], rtype=mut[3])
         elif mut[0] == 'reloc-unterminated':
             data = reloc_file(tuple(mut[1]), tuple(mut[2]), strings=b'ab\0cd', rdata=bool(mut[3]))
         else:
